@@ -27,7 +27,7 @@ def run_job(kind, key):
     I = Interp(w, table)
     px.install(I)
     if kind == 'lemmas':
-        return dict(job=key, records=px.pyx_lemmas(I, prop))
+        return dict(job=key, records=px.pyx_lemmas(I, prop) + px.constructor_records(I, prop))
     c = contract_for(name)
     I.contracts[c.name] = c
     recs, npaths = verify_contract(I, c, prop)
@@ -62,6 +62,6 @@ ASSUMPTIONS = [
     'parsing.pyx is verified on its DePyx text (vc/depyx.py: cimport / extern blocks deleted, C types, casts, & and exception specifications erased - re-extracted on every run); '
     'C-level values through assumed views: cell_item* as the datatype Item = leaf | unary | binary | final (fields as the struct declares them), pair<unsigned, unsigned> stores -1 as UINT_MAX, '
     'cache[0][key][k] is a record determined by (key.first, key.second, k), token_id[0] is one counter cell, vector::push_back copies the struct',
-    'Tree.make_terminal / make_unary / make_binary build the node they are told to (constructor contracts; depccg/tree.py is covered by C07 / C15 view obligations); bytes.decode inverts str.encode for utf-8',
+    'Tree.make_terminal / make_unary / make_binary build the node they are told to: constructor contracts, checked by executing the real depccg/tree.py constructors on symbolic arguments (constructor-contract obligations); bytes.decode inverts str.encode for utf-8',
     'items handed to retrieve_tree: a final item wraps an item that contains no final item (CxxVC: only the goal site creates final items); the induction principle over the item is the meta-rule',
 ]
